@@ -1,23 +1,29 @@
 #!/bin/bash
 # usage: tryneutral.sh <patch.diff>... ; for each property-preserving patch: scratch worktree of /repo HEAD, apply, run every quick
-# check against it (VERIF_REPO), print the checks that alarmed. A sound harness prints nothing but "silent" lines.
+# check against it (VERIF_REPO; NPAR checks at a time, default 5: run.sh gives every invocation its own build directory), print the
+# checks that alarmed. A sound harness prints nothing but "silent" lines.
 cd "$(dirname "$0")/.."
+NPAR="${NPAR:-5}"
 for patch in "$@"; do
   patch=$(realpath "$patch")
   wt=/tmp/nw-$$
   git -C /repo worktree remove --force $wt 2>/dev/null; rm -rf $wt
   git -C /repo worktree add -q --detach $wt HEAD || exit 2
   if ! git -C $wt apply --3way "$patch" 2>/dev/null && ! git -C $wt apply "$patch"; then echo "$patch: DOES NOT APPLY"; git -C /repo worktree remove --force $wt; continue; fi
+  res=/tmp/nw-$$-res; rm -rf $res; mkdir -p $res
+  printf '%s\n' C01 C02 C03 C04 C05 C06 C07 C08 C09 C10 C11 C12 C13 C14 C15 C16 C17 C18 C19 C20 | \
+    xargs -P "$NPAR" -I{} sh -c "VERIF_REPO=$wt timeout 1800 ./run.sh check {} quick > $res/{}.out 2>&1; echo \$? > $res/{}.rc"
   alarms=""
   for id in C01 C02 C03 C04 C05 C06 C07 C08 C09 C10 C11 C12 C13 C14 C15 C16 C17 C18 C19 C20; do
-    out=$(VERIF_REPO=$wt timeout 900 ./run.sh check $id quick 2>&1); r=$?
-    if [ $r -ne 0 ]; then
+    r=$(cat $res/$id.rc 2>/dev/null || echo 99)
+    if [ "$r" -ne 0 ]; then
       alarms="$alarms $id(exit=$r)"
       echo "$patch: ALARM $id exit=$r"
-      echo "$out" | grep -a -A2 '^VIOLATION' | grep -a -v '^VIOLATION\|^--' | head -6 | cut -c1-420
-      echo "$out" | grep -a '^INCONCLUSIVE\|^BROKEN' | head -3 | cut -c1-300
+      grep -a -A2 '^VIOLATION' $res/$id.out | grep -a -v '^VIOLATION\|^--' | head -6 | cut -c1-420
+      grep -a '^INCONCLUSIVE\|^BROKEN' $res/$id.out | head -3 | cut -c1-300
     fi
   done
   echo "$patch: done; alarms:${alarms:- none (silent)}"
+  rm -rf $res
   git -C /repo worktree remove --force $wt 2>/dev/null; rm -rf $wt
 done
